@@ -216,12 +216,37 @@ def _run_chunk(k):
     return dict(_safe(fn, chunks[k]))
 
 
+def library_exception(ex):
+    """(key, what, witness) when `ex` was raised inside the library under test (or below it) on a call made by the harness
+    without a guard, None when it comes from the harness's own code"""
+    tb = traceback.extract_tb(ex.__traceback__)
+    repo = os.path.realpath(REPO) + os.sep
+    inner = tb[-1] if tb else None
+    lib_frames = [f for f in tb if os.path.realpath(f.filename).startswith(repo)]
+    if inner is None or not lib_frames or not (os.path.realpath(inner.filename).startswith(repo) or "site-packages" in inner.filename):
+        return None
+    where = lib_frames[0]
+    return (f"unexpected-library-exception/{type(ex).__name__}/{os.path.basename(where.filename)}:{where.name}",
+            "the library raised on a call that is legitimate for every case of this check (it never raises on the unchanged tree)",
+            {"exception": repr(ex)[:400], "traceback": "".join(traceback.format_exception(type(ex), ex, ex.__traceback__)).strip().split("\n")[-14:]})
+
+
 def _safe(fn, chunk):
     try:
         return fn(chunk)
     except _tlc.MachineryError:
         raise
-    except Exception:
+    except Exception as ex:
+        # An exception that the LIBRARY raised on a call the harness makes unguarded - i.e. a call that is legitimate for
+        # every input the harness builds and never raises on the unchanged tree (it would be a machinery error there) - is
+        # a refusal of legitimate input: reported as a violation of the property being checked, with the place it came from.
+        # Anything raised by the harness's own code stays a machinery error.
+        cls = library_exception(ex)
+        if cls is not None:
+            part = Part()
+            part.violation(*cls)
+            part.note("chunks_abandoned_after_a_library_exception")
+            return part
         # a crash of the harness itself is machinery, not a property violation
         raise _tlc.MachineryError("replay worker crashed:\n" + traceback.format_exc())
 
